@@ -13,5 +13,9 @@ func main() {
 		workerMain()
 		return
 	}
+	if len(os.Args) > 1 && os.Args[1] == "replay" {
+		replayMain(os.Args[2:])
+		return
+	}
 	vh.Main()
 }
